@@ -64,6 +64,18 @@ func PipelineFromFile(file string, opts ...PipelineOption) (*Pipeline, error) {
 		return nil, err
 	}
 
+	// `- null` entries are decoded as nil pointers
+	for _, input := range pipeline.Inputs {
+		if input == nil {
+			return nil, fmt.Errorf("empty input")
+		}
+	}
+	for _, outputLanguage := range pipeline.Output.Languages {
+		if outputLanguage == nil {
+			return nil, fmt.Errorf("empty language configuration")
+		}
+	}
+
 	for _, opt := range opts {
 		opt(pipeline)
 	}
